@@ -93,6 +93,29 @@ func c11R2(c *Ctx, r *Report) {
 		r.Check("C11-R2", fmt.Sprintf("fn=%s post-commit=%s #%d after=write-success", name, CalleeIdent(call), n), c.Pos(call.Pos()), ok,
 			"reachable only when the CAS write returned no error", "a post-commit side effect (cleanup / invalidation / cache insert) is reachable on a path where the CAS write failed: a rejected or failed write would alter state")
 	}
+	// post-commit effects must not be issued from inside the CAS callback (it runs before the commit, possibly several times)
+	isPost := func(nm string) bool {
+		for _, p := range post {
+			if nm == p {
+				return true
+			}
+		}
+		return false
+	}
+	inner := append([]*ssa.Function{}, fn.AnonFuncs...)
+	if duf := c.Func("(*db.DatabaseCollectionWithUser).documentUpdateFunc"); duf != nil {
+		inner = append(inner, duf)
+	}
+	for _, lit := range inner {
+		bad := ""
+		for _, call := range c.Calls(lit, true, isPost) {
+			if CalleeIdent(call) == "Delete" {
+				continue // KV deletes inside the callback path are judged by R1/C14, not here
+			}
+			bad = CalleeIdent(call) + "@" + c.Pos(call.Pos())
+		}
+		r.Check("C11-R2", "fn="+c.FuncName(lit)+" no-post-commit-effects-before-commit", c.Pos(lit.Pos()), bad == "", "no invalidation / cache insert / cleanup inside the pre-commit callback", "post-commit effect issued before the commit point: "+bad+" (would take effect even if the write is then rejected or loses the CAS race)")
+	}
 	// pre-commit side effects: who may call
 	pre := map[string]map[string]bool{
 		"(*db.DatabaseCollectionWithUser).addAttachments":    {"(*db.DatabaseCollectionWithUser).documentUpdateFunc": true},
